@@ -225,7 +225,7 @@ def run(ctx):
             run_models(ctx, ["IspecMC_quick.cfg", "IspecMC_dec_quick.cfg", "IspecMC_lex_quick.cfg"], workers=4)
         else:
             run_models(ctx, ["IspecMC_thorough.cfg", "IspecMC_dec_thorough.cfg", "IspecMC_lex_thorough.cfg"], workers=5)
-        res = tlc.run("Ispec", "IspecMC_dev.cfg", expect_violation=True, tag="c03dev", workers=4, xmx="2g", env=c03.jvm_env(2))
+        res = tlc.run("Ispec", "IspecMC_dev.cfg", expect_violation=True, tag="c03dev", workers=2, xmx="2g", env=c03.jvm_env(2))
         if not res.violation or "DocImpl" not in res.violation:
             raise tlc.MachineryError("self-test: fault EqNoRewindDown did not violate DocImpl (invariant vacuous?)")
         ctx.note("selftest_fault_detected_by_model", res.violation)
